@@ -126,11 +126,17 @@ def r2(ctx):
              isinstance(c.func, ast.Attribute) and
              c.func.attr in ("_splitFiber", "updatePayloadsBelow", "updatePayloads")]
     ctx.require(calls, "C08.R2: split calls vanished from _splitGeneric")
-    bad = [c for c in calls if text(c.func.value) != var]
+    def receiver(c):
+        # `Fiber.m(obj, ..)` is `obj.m(..)`
+        if text(c.func.value) == "Fiber" and c.args and \
+                not isinstance(c.args[0], ast.Starred):
+            return text(c.args[0])
+        return text(c.func.value)
+    bad = [c for c in calls if receiver(c) != var]
     if bad:
         ctx.bad("C08.R2", f, bad[0], "`%s` runs on `%s`, not on the deep copy "
                 "`%s`: the operand itself is transformed"
-                % (text(bad[0])[:60], text(bad[0].func.value), var))
+                % (text(bad[0])[:60], receiver(bad[0]), var))
     else:
         ctx.ok("C08.R2", f, cp[0], "every transformation runs on the deep copy")
     g = cfg_of(f)
